@@ -3,6 +3,7 @@
 package model
 
 import (
+	"encoding/json"
 	"errors"
 	"math/big"
 
@@ -59,6 +60,13 @@ func AbiEncodeArrayOfAddresses(addrs []common.Address) ([]byte, error) {
 
 // JSON of the typed contract metadata (encoding/json works by reflection): inverse pair.
 func MustMarshalJson(v interface{}) []byte {
+	if !verif.Symbolic() {
+		bz, err := json.Marshal(v)
+		if err != nil {
+			panic(err)
+		}
+		return bz
+	}
 	switch m := v.(type) {
 	case cpctypes.Erc20CustomPrecompiledContractMeta:
 		c := m
@@ -71,6 +79,9 @@ func MustMarshalJson(v interface{}) []byte {
 }
 
 func JsonUnmarshal(data []byte, v interface{}) error {
+	if !verif.Symbolic() {
+		return json.Unmarshal(data, v)
+	}
 	if !verif.DecodeAny(data, v) {
 		return errors.New("model: undecodable JSON")
 	}
